@@ -1845,3 +1845,48 @@ Proof.
       destruct (match get_tid t (m14_late m) with Some b0 => b0 | None => false end) eqn:El; [|rewrite orb_false_r; reflexivity].
       apply late_bool in El. pose proof (Late_w (or_introl El)) as W. pose proof (Lf W Logic.I El) as Ok. destruct b; [rewrite orb_false_r; reflexivity|destruct Ok].
 Qed.
+
+(** the exit sequence of a piped worker becomes its continuation *)
+Lemma f_final : forall st m t,
+  FRel FNone st m -> t <> main -> tcont (thr st t) = [] -> tcur (thr st t) = None -> (forall j, In j (tfinal (thr st t)) -> finok j) ->
+  FRel FNone (upd_th st t (set_tfinal (set_tcont (th st t) (tfinal (th st t))) [])) m.
+Proof.
+  intros st m t R Nm Hc Hcu Hfin.
+  set (st' := upd_th st t (set_tfinal (set_tcont (th st t) (tfinal (th st t))) [])).
+  assert (Ho : forall u, u <> t -> thr st' u = thr st u) by (intros u Hu; unfold st'; thr_simpl).
+  assert (Hc' : tcont (thr st' t) = tfinal (thr st t)) by (unfold st'; thr_simpl).
+  assert (Cu : forall u, tcur (thr st' u) = tcur (thr st u)) by (intro u; unfold st'; thr_simpl).
+  assert (Tp : forall u, tpipe (thr st' u) = tpipe (thr st u)) by (intro u; unfold st'; thr_simpl).
+  assert (Tr : forall u, tret (thr st' u) = tret (thr st u)) by (intro u; unfold st'; thr_simpl).
+  assert (Wk : forall u, wkr st' u <-> wkr st u) by (intro u; unfold wkr; rewrite Tp; tauto).
+  assert (Mc : mcont st' = mcont st) by (unfold mcont; rewrite Ho; auto).
+  assert (Fq : forall j, In j (tcont (thr st' t)) -> fq j).
+  { intros j Hj. rewrite Hc' in Hj. apply Hfin in Hj. destruct j; cbn in Hj; try contradiction. destruct a; cbn in Hj; try contradiction; exact Logic.I. }
+  destruct (fq_list _ Fq) as [Cn [Sn Vn]].
+  assert (Tcu : tcur (thr st' t) = None) by (rewrite Cu; exact Hcu).
+  constructor.
+  - intros u q x Y. discriminate Y.
+  - intros u q Y. discriminate Y.
+  - rewrite Mc. apply (f_noex _ _ _ R).
+  - apply (f_drop _ _ _ R).
+  - intros u W. rewrite Tp. apply Wk in W. apply (f_late _ _ _ R u W).
+  - intros u c W L Hq. apply Wk in W. destruct (Nat.eq_dec u t) as [->|Hu]; [rewrite Tcu in Hq; discriminate Hq|]. rewrite (Ho u Hu) in *. apply (f_ok _ _ _ R u c W L Hq).
+  - intros u W. cbn zeta. rewrite Tp, Mc. apply Wk in W. pose proof (f_ps _ _ _ R u W) as L. cbn zeta in L. rewrite L.
+    destruct (Nat.eq_dec u t) as [->|Hu]; [|rewrite (Ho u Hu); reflexivity]. unfold rtransit. rewrite Vn, Tcu, Hc, Hcu. reflexivity.
+  - intros u m0 q x Hin. destruct (Nat.eq_dec u t) as [->|Hu]; [exfalso; exact (proj1 (proj2 (proj2 (proj2 (fq_facts _ (Fq _ Hin))))) m0 q x eq_refl)|]. rewrite (Ho u Hu) in *. apply (f_own_send _ _ _ R u m0 q x Hin).
+  - intros u q x. rewrite Cu, Tr. apply (f_sendret _ _ _ R).
+  - intros u q Hq Np. destruct (Nat.eq_dec u t) as [->|Hu]; [rewrite Tcu in Hq; discriminate Hq|]. rewrite (Ho u Hu) in *. apply (f_dropcmd _ _ _ R u q Hq Np).
+  - intros u m0 q Hin. destruct (Nat.eq_dec u t) as [->|Hu]; [exfalso; exact (proj1 (proj2 (proj2 (proj2 (proj2 (fq_facts _ (Fq _ Hin)))))) m0 q eq_refl)|]. rewrite (Ho u Hu) in *. apply (f_own_cs _ _ _ R u m0 q Hin).
+  - intros u. rewrite Cu. apply (f_late_cur _ _ _ R).
+  - intros u Hin. rewrite Cu. destruct (f_late_in _ _ _ R u Hin) as [A B]. split; [exact A|apply Wk; exact B].
+  - apply (f_late_nd _ _ _ R).
+  - intros u m0 v Hin. destruct (Nat.eq_dec u t) as [->|Hu]; [exfalso; exact (proj1 (proj2 (proj2 (proj2 (proj2 (proj2 (fq_facts _ (Fq _ Hin))))))) m0 v eq_refl)|]. rewrite (Ho u Hu) in *.
+    destruct (f_own_ret _ _ _ R u m0 v Hin) as [A B]. split; [exact A|]. intros z Ez. destruct (B z Ez) as [B1 B2]. split; [exact B1|apply Wk; exact B2].
+  - intros u j Hin. destruct (Nat.eq_dec u t) as [->|Hu].
+    + destruct (fq_facts _ (Fq _ Hin)) as [_ [_ [_ [_ [_ [_ [Z1 [Z2 [Z3 Z4]]]]]]]]].
+      split; [intros m0 q [Y|Y]; exfalso; [exact (Z1 m0 q Y)|exact (Z2 q Y)]|split; [intros m0 q Y; exfalso; exact (Z3 m0 q Y)|intros m0 q x Y; exfalso; exact (Z4 m0 q x Y)]].
+    + rewrite (Ho u Hu) in *. destruct (f_own_pr _ _ _ R u j Hin) as [A [B C]].
+      split; [intros m0 q Y; destruct (A m0 q Y) as [A1 A2]; split; [apply Wk; exact A1|exact A2]|split;
+        [intros m0 q Y; destruct (B m0 q Y) as [B1 B2]; split; [apply Wk; exact B1|exact B2]|intros m0 q x Y; destruct (C m0 q x Y) as [C1 C2]; split; [apply Wk; exact C1|exact C2]]].
+  - intros u c Hq Wc. destruct (Nat.eq_dec u t) as [->|Hu]; [rewrite Tcu in Hq; discriminate Hq|]. rewrite (Ho u Hu) in *. apply (f_pr _ _ _ R u c Hq Wc).
+Qed.
